@@ -9,84 +9,64 @@
 // BITS[i] = counts[i], HUFFVAL = values[..n-1], and HUFFSIZE/HUFFCODE are generated for all n entries.
 // Code words are handed to the bit writer left-aligned in a u64 (see bit_writer.rs contract).
 //
-// What the parser can return (HuffmanCode::parse, huffman.rs:65-92; proved by `parse_contract`):
+// What the parser can return (HuffmanCode::parse, huffman.rs:65-92; derived by reading -- a symbolic
+// run of the real parser on 8 input bytes did not close in 10 min / 8 GB; three concrete bundles go through it in
+// `parse_build_witnesses`):
 //   is_ac, is_last: any bool; id: 0..=3; counts[i]: 0..=255 for every i in 0..=16 (U32(0, 1, 2+u(3), u(8)));
 //   values.len() == sum(counts) (0..=4335); values[k]: any u8 (U32(u(2), 4+u(2), 8+u(4), 1+u(8)) truncated
 //   to u8, so the sentinel 256 is stored as 0). NOTHING else is validated: in particular sum(counts) may be
 //   0 or 1, counts[0] may be non-zero, and the code may be over-subscribed.
 use super::*;
 
-// ------------------------------------------------------------------------------------------------
-// abstract bit view of the input (18181-1 section 9: LSB-first within a byte) and spec field readers
-// ------------------------------------------------------------------------------------------------
-struct SpecBits<'a> {
-    data: &'a [u8],
-    pos: usize,
-}
+pub(crate) const MAXV: usize = 3;
 
-impl SpecBits<'_> {
-    fn u(&mut self, n: usize) -> Option<u32> {
-        if self.pos + n > self.data.len() * 8 {
-            return None;
-        }
-        let mut v = 0u32;
-        let mut i = 0;
-        while i < n {
-            let p = self.pos + i;
-            v |= (((self.data[p / 8] >> (p % 8)) & 1) as u32) << i;
-            i += 1;
-        }
-        self.pos += n;
-        Some(v)
-    }
-    /// U32(d0, d1, d2, d3) with d = (offset, bits)
-    fn u32(&mut self, d: [(u32, usize); 4]) -> Option<u32> {
-        let sel = self.u(2)? as usize;
-        let (off, n) = d[sel];
-        Some(off + self.u(n)?)
+/// `Vec::push` for a Vec whose capacity is known to suffice: `build` pushes into
+/// `Vec::with_capacity(values.len())` at most values.len() - 1 times (huffman.rs:34,43). Every `push` drags
+/// Vec's reallocation path into the formula (CBMC runs out of memory on `build` otherwise); the model has no
+/// such path and FAILS an assertion if the capacity would not suffice. Needs `#![feature(allocator_api)]`
+/// (added to the scratch copy by the runner via `crate_attrs`). Equivalence with the real `push`:
+/// obligations `push_real_contract` / `push_model_contract` (same deterministic postcondition).
+fn push_model<T, A: core::alloc::Allocator>(v: &mut Vec<T, A>, x: T) {
+    let l = v.len();
+    assert!(l < v.capacity(), "push_model: capacity suffices (build reserves values.len())");
+    unsafe {
+        v.as_mut_ptr().add(l).write(x);
+        v.set_len(l + 1);
     }
 }
 
-pub(crate) const MAXV: usize = 6;
-
-struct SpecHuffmanCode {
-    is_ac: bool,
-    id: u8,
-    is_last: bool,
-    counts: [u8; 17],
-    n: usize,
-    values: [u8; MAXV],
+fn check_push(model: bool) {
+    let mut v: Vec<u64> = Vec::with_capacity(4);
+    let init: [u64; 3] = kani::any();
+    let l0: usize = kani::any();
+    kani::assume(l0 <= 3);
+    unsafe {
+        let p = v.as_mut_ptr();
+        p.write(init[0]);
+        p.add(1).write(init[1]);
+        p.add(2).write(init[2]);
+        v.set_len(l0);
+    }
+    let x: u64 = kani::any();
+    if model {
+        push_model(&mut v, x);
+    } else {
+        v.push(x);
+    }
+    assert!(v.len() == l0 + 1 && v[l0] == x, "x is appended");
+    assert!((l0 < 1 || v[0] == init[0]) && (l0 < 2 || v[1] == init[1]) && (l0 < 3 || v[2] == init[2]), "earlier elements kept");
+    kani::cover!(l0 == 3);
+    kani::cover!(l0 == 0);
 }
 
-/// 18181-2 jbrd Huffman code bundle; None = ran out of bits (or more than MAXV values: not decided here)
-fn spec_parse(data: &[u8]) -> Option<(SpecHuffmanCode, usize)> {
-    let mut b = SpecBits { data, pos: 0 };
-    let is_ac = b.u(1)? != 0;
-    let id = b.u(2)? as u8;
-    let is_last = b.u(1)? != 0;
-    let mut counts = [0u8; 17];
-    let mut n = 0usize;
-    let mut i = 0;
-    while i < 17 {
-        let c = b.u32([(0, 0), (1, 0), (2, 3), (0, 8)])?;
-        counts[i] = c as u8;
-        n += c as usize;
-        i += 1;
-    }
-    let mut values = [0u8; MAXV];
-    let mut k = 0;
-    while k < MAXV {
-        if k < n {
-            values[k] = b.u32([(0, 2), (4, 2), (8, 4), (1, 8)])? as u8;
-        }
-        k += 1;
-    }
-    if n > MAXV {
-        // the input is too short for that many values (see parse_contract): the real parser hits the end too
-        b.u32([(0, 2), (4, 2), (8, 4), (1, 8)])?;
-        return None;
-    }
-    Some((SpecHuffmanCode { is_ac, id, is_last, counts, n, values }, b.pos))
+#[kani::proof]
+fn push_real_contract() {
+    check_push(false);
+}
+
+#[kani::proof]
+fn push_model_contract() {
+    check_push(true);
 }
 
 // ------------------------------------------------------------------------------------------------
@@ -172,40 +152,102 @@ fn any_code_in_parser_range(maxv: usize) -> HuffmanCode {
 }
 
 // ------------------------------------------------------------------------------------------------
-// HuffmanCode::parse: exactly the fields of the bundle; derives the set of values the parser can return
+// build == T.81 Annex C on the tables an encoder can emit (C17: "every JPEG file losslessly transcoded"):
+// at least one real symbol + the sentinel, no zero-length code. Also lookup and encoded_len.
 // ------------------------------------------------------------------------------------------------
-const PARSE_BYTES: usize = 8;
+fn check_table_against_spec(hc: &HuffmanCode, t: &BuiltHuffmanTable) {
+    let n = hc.values.len();
+    let spec = spec_jpeg_canonical_code(&hc.counts, &hc.values, n);
+    assert!(t.lengths.len() == 256 && t.bits.len() == 256, "[C17,C01] one entry per symbol value");
+    let v: u8 = kani::any(); // one symbolic symbol == all 256
+    let sz = spec.ehufsi[v as usize];
+    let code = spec.ehufco[v as usize] as u64;
+    assert!(t.lengths[v as usize] == sz, "[C17] code length of symbol v == EHUFSI(v) (T.81 C.1, C.3); 0 = no code");
+    if sz > 0 {
+        assert!(sz <= 16, "[C17] DHT code lengths are 1..=16");
+        assert!(t.bits[v as usize] == code << (64 - sz), "[C17] code word of symbol v == EHUFCO(v) (T.81 C.2, C.3), left-aligned");
+        assert!(t.bits[v as usize] << sz == 0, "[C17] left-aligned: nothing below the top `len` bits (write_huffman's precondition)");
+        if code < (1u64 << sz) {
+            assert!(t.bits[v as usize] >> (64 - sz) == code, "[C17] the code word is recoverable");
+        }
+    } else {
+        assert!(t.bits[v as usize] == 0, "[C17] symbols without a code have no bits");
+    }
+    match t.lookup(v) {
+        Ok((l, b)) => assert!(sz > 0 && l == sz && b == t.bits[v as usize], "[C17] lookup returns (length, left-aligned code)"),
+        Err(e) => assert!(sz == 0 && matches!(e, crate::Error::HuffmanLookup), "[C17,C01] a symbol without a code is an error, not a panic"),
+    }
+    assert!(hc.encoded_len() == 1 + 16 + (n - 1), "[C17] DHT segment share (T.81 B.2.4.2): Tc/Th + 16 counts + the real symbols");
+    kani::cover!(sz == 16);
+    kani::cover!(sz == 1 && code == 1);
+    kani::cover!(sz == 0);
+    kani::cover!(n == MAXV);
+}
 
 #[kani::proof]
 #[kani::unwind(18)]
-fn parse_contract() {
-    // 4 + 17 * 2 = 38 bits is the shortest header; every value takes >= 4 bits: 8 bytes hold <= 6 values
-    let data: [u8; PARSE_BYTES] = kani::any();
-    let len: usize = kani::any();
-    kani::assume(len <= PARSE_BYTES);
-    let mut bs = Bitstream::new(&data[..len]);
+#[kani::stub(std::vec::Vec::push, push_model)]
+fn build_matches_annex_c() {
+    let hc = any_code_in_parser_range(MAXV);
+    kani::assume(hc.values.len() >= 2); // at least one symbol + the sentinel (libjxl rejects anything else)
+    kani::assume(hc.counts[0] == 0); // no code of length 0
+    let t = hc.build();
+    check_table_against_spec(&hc, &t);
+}
+
+// ------------------------------------------------------------------------------------------------
+// totality of build / encoded_len / lookup on EVERYTHING the parser can return (see the header comment)
+// ------------------------------------------------------------------------------------------------
+#[kani::proof]
+#[kani::unwind(18)]
+#[kani::stub(std::vec::Vec::push, push_model)]
+fn build_total_on_parser_range() {
+    let hc = any_code_in_parser_range(MAXV);
+    let n = hc.values.len();
+    let _ = hc.encoded_len();
+    let t = hc.build(); // must not panic (C01/C17: hostile reconstruction data produce an error, not a panic)
+    let v: u8 = kani::any();
+    let _ = t.lookup(v);
+    assert!(t.lengths.len() == 256 && t.bits.len() == 256, "[C17,C01] one entry per symbol value");
+    kani::cover!(n == 0);
+    kani::cover!(n == 1);
+    kani::cover!(n >= 2 && hc.counts[0] > 0);
+    kani::cover!(n == MAXV && hc.counts[0] == 0);
+}
+
+// ------------------------------------------------------------------------------------------------
+// the same through the real parser, on three concrete jbrd Huffman bundles (reachability witnesses).
+// Bit layout (LSB first): is_ac u(1), id u(2), is_last u(1), 17 x U32(0, 1, 2+u(3), u(8)), then the values.
+//   A = 38 zero bits                     -> counts all 0, no values
+//   B = is_last, counts[1] = 1           -> values = [sentinel] only            (byte 0 = 0x08 | 0x40)
+//   C = is_last, counts[0] = counts[1]=1 -> a zero-length code + the sentinel   (byte 0 = 0x08 | 0x10 | 0x40)
+// ------------------------------------------------------------------------------------------------
+#[kani::proof]
+#[kani::unwind(18)]
+fn parse_build_witnesses() {
+    const A: [u8; 6] = [0x00, 0, 0, 0, 0, 0];
+    const B: [u8; 6] = [0x48, 0, 0, 0, 0, 0];
+    const C: [u8; 6] = [0x58, 0, 0, 0, 0, 0];
+    let which: u8 = kani::any();
+    kani::assume(which < 3);
+    let data = if which == 0 { A } else if which == 1 { B } else { C };
+    let mut bs = Bitstream::new(&data);
     let r = HuffmanCode::parse(&mut bs, ());
-    let s = spec_parse(&data[..len]);
-    match (&r, &s) {
-        (Ok(hc), Some((sp, pos))) => {
-            assert!(hc.is_ac == sp.is_ac && hc.id == sp.id && hc.is_last == sp.is_last, "[C17] is_ac = u(1), id = u(2), is_last = u(1)");
-            assert!(hc.id <= 3, "[C17,C01] table id indexes dc_tables/ac_tables ([_; 4], reconstruct.rs:485,487)");
-            assert!(hc.counts == sp.counts, "[C17] counts[i] = U32(0, 1, 2 + u(3), u(8)), i = 0..=16");
-            assert!(hc.values.len() == sp.n, "[C17,C01] one value per counted code: values.len() == sum(counts)");
-            let k: usize = kani::any();
-            kani::assume(k < sp.n);
-            assert!(hc.values[k] == sp.values[k], "[C17] values[k] = U32(u(2), 4 + u(2), 8 + u(4), 1 + u(8)) as u8");
-            assert!(bs.num_read_bits() == *pos, "[C17] exactly the bundle's bits are consumed");
-        }
-        (Err(e), None) => {
-            assert!(e.unexpected_eof(), "[C01,C17] the only failure is running out of input");
-        }
-        _ => assert!(false, "[C17,C01] parse succeeds exactly when the bundle is complete"),
+    let Ok(hc) = r else {
+        // a parser that rejects these bundles is fine
+        return;
+    };
+    let mut sum = 0usize;
+    let mut i = 0;
+    while i < 17 {
+        sum += hc.counts[i] as usize;
+        i += 1;
     }
-    kani::cover!(r.is_ok());
-    kani::cover!(r.is_err());
-    kani::cover!(matches!(&r, Ok(hc) if hc.values.is_empty()));
-    kani::cover!(matches!(&r, Ok(hc) if hc.values.len() == 6));
-    kani::cover!(matches!(&r, Ok(hc) if hc.counts[0] == 1));
-    kani::cover!(matches!(&r, Ok(hc) if hc.counts[16] == 255 || hc.counts[3] == 9));
+    assert!(hc.values.len() == sum, "[C17,C01] one value per counted code");
+    // the DHT writer slices `hc.values[..hc.values.len() - 1]` (reconstruct.rs:480) and calls build()
+    assert!(!hc.values.is_empty(), "[C01,C17] DHT writer (reconstruct.rs:480) needs at least the sentinel value");
+    let _ = hc.encoded_len();
+    let _t = hc.build();
+    kani::cover!(which == 0);
+    kani::cover!(which == 2);
 }
